@@ -1,21 +1,22 @@
 import RdsProofs.Reentrant
 import RdsProofs.C15Proofs
 /-!
-# RdsProofs.ReentrantObs — handlers that only touch registrations and user data (partial)
+# RdsProofs.ReentrantObs — handlers that only touch registrations and user data 
 
 Full statement aimed at: for every handler `h` with `∀ e s, erase (h e s).1 = erase s` (it changes nothing but the registration
 table and the user data, whatever callbacks it registers or removes from inside the call),
 `erase (processH cfg h s g).1 = erase (process cfg s g).1` — the nested-call form of C15's "who listens does not influence
 what is decoded". Proved so far (`…_erase`, each in the congruence form `erase s = erase t → …`): `setFieldH`, `addAfH`,
 `groupCommonH` (PI/PTY/TP), `group0H` (TA/MS, PS, AF), `group1H` (ECC and country, including the PI read after the ECC
-callback), `group4H`, `group10H`. Missing: `group2H` and hence `processH` (not finished).
+callback), `group2H`, `group4H`, `group10H`, `dispatchH`, and the statement itself: `processH_erase`, `stepH_erase`.
+`handlerOfMode_observerOnly`: the harness modes `ri 1000..4999` are such handlers (non-vacuity).
 -/
 namespace RDS
 
 /-- a handler that touches nothing but the registration table and the user data, and makes no API call that invokes callbacks -/
 def Handler.ObserverOnly (h : Handler) : Prop := ∀ e s, erase (h e s).1 = erase s
 
-theorem erase_fields {s t : State} (h : erase s = erase t) :
+theorem erase_fields_eq {s t : State} (h : erase s = erase t) :
     s.used = t.used ∧ s.temp = t.temp ∧ s.set = t.set ∧ s.ps = t.ps ∧ s.rt0 = t.rt0 ∧ s.rt1 = t.rt1 ∧ s.ptyn = t.ptyn ∧
     s.lastRt = t.lastRt := by
   cases s; cases t; simp only [erase, State.mk.injEq] at h; simp_all
@@ -28,7 +29,7 @@ theorem emitH_erase (h : Handler) (ho : h.ObserverOnly) (s : State) (c : Cb) (k 
 
 theorem setFieldH_erase (h : Handler) (ho : h.ObserverOnly) {s t : State} (hst : erase s = erase t) (f : Fld) (v : Int) :
     erase (setFieldH h s f v).1 = erase (setField t f v).1 := by
-  obtain ⟨hu, ht, hs, _⟩ := erase_fields hst
+  obtain ⟨hu, ht, hs, _⟩ := erase_fields_eq hst
   unfold setFieldH setField
   simp only []
   split
@@ -42,7 +43,7 @@ theorem erase_with_congr {s t : State} (hst : erase s = erase t) (f : State → 
 
 theorem addAfH_erase (h : Handler) (ho : h.ObserverOnly) {s t : State} (hst : erase s = erase t) (v : Nat) :
     erase (addAfH h s v).1 = erase (addAf t v).1 := by
-  obtain ⟨hu, ht, hs, _⟩ := erase_fields hst
+  obtain ⟨hu, ht, hs, _⟩ := erase_fields_eq hst
   unfold addAfH addAf
   simp only [hu, ht, hs]
   split
@@ -75,7 +76,7 @@ theorem group1H_erase (cfg : Cfg) (h : Handler) (ho : h.ObserverOnly) {s t : Sta
   · simp only []
     have h1 := setFieldH_erase h ho hst .ecc (g.c % 256 : Nat)
     have hpi : (setFieldH h s .ecc (g.c % 256 : Nat)).1.used.pi = (setField t .ecc (g.c % 256 : Nat)).1.used.pi := by
-      rw [(erase_fields h1).1]
+      rw [(erase_fields_eq h1).1]
     rw [hpi]
     exact setFieldH_erase h ho h1 _ _
   · exact hst
@@ -90,7 +91,7 @@ theorem group4H_erase (h : Handler) (ho : h.ObserverOnly) (s : State) (g : Group
     · rfl
   · rfl
 
-theorem group4_state (s : State) (g : Group) : (group4 s g).1 = s := by
+theorem group4_state_same (s : State) (g : Group) : (group4 s g).1 = s := by
   unfold group4; split
   · simp only []
     split <;> rfl
@@ -98,7 +99,7 @@ theorem group4_state (s : State) (g : Group) : (group4 s g).1 = s := by
 
 theorem group10H_erase (cfg : Cfg) (h : Handler) (ho : h.ObserverOnly) {s t : State} (hst : erase s = erase t) (g : Group) :
     erase (group10H cfg h s g).1 = erase (group10 cfg t g).1 := by
-  obtain ⟨hu, ht, hs, hps, h0, h1, hpt, hl⟩ := erase_fields hst
+  obtain ⟨hu, ht, hs, hps, h0, h1, hpt, hl⟩ := erase_fields_eq hst
   unfold group10H group10
   simp only [hs, hpt]
   split
@@ -107,62 +108,206 @@ theorem group10H_erase (cfg : Cfg) (h : Handler) (ho : h.ObserverOnly) {s t : St
     · cases s; cases t; simp only [erase, State.mk.injEq] at hst ⊢; simp_all
   · exact hst
 
-theorem erase_setPs {s t : State} (hst : erase s = erase t) (p : Text) :
+theorem erase_setPs_congr {s t : State} (hst : erase s = erase t) (p : Text) :
     erase { s with ps := p } = erase { t with ps := p } := by
   cases s; cases t; simp only [erase, State.mk.injEq] at hst ⊢; simp_all
 
-def g0psH (cfg : Cfg) (h : Handler) (r : State) (g : Group) : State :=
+def nc_g0psH (cfg : Cfg) (h : Handler) (r : State) (g : Group) : State :=
   let u := parserUpdate cfg r.set r.ps .ps g.d g.eb g.ed (2 * (g.b % 4))
   (if u.2 then emitH h { r with ps := u.1 } .ps .ps else ({ r with ps := u.1 }, [])).1
 
-def g0ps (cfg : Cfg) (r : State) (g : Group) : State :=
+def nc_g0ps (cfg : Cfg) (r : State) (g : Group) : State :=
   { r with ps := (parserUpdate cfg r.set r.ps .ps g.d g.eb g.ed (2 * (g.b % 4))).1 }
 
-def g0afH (h : Handler) (e : State) (g : Group) : State :=
+def nc_g0afH (h : Handler) (e : State) (g : Group) : State :=
   if !g.versionB && g.eb = 0 && g.ec = 0 && g.c / 256 % 256 != 250 then
     (addAfH h (addAfH h e (g.c / 256 % 256)).1 (g.c % 256)).1
   else e
 
-def g0af (e : State) (g : Group) : State :=
+def nc_g0af (e : State) (g : Group) : State :=
   if !g.versionB && g.eb = 0 && g.ec = 0 && g.c / 256 % 256 != 250 then
     (addAf (addAf e (g.c / 256 % 256)).1 (g.c % 256)).1
   else e
 
-theorem g0ps_erase (cfg : Cfg) (h : Handler) (ho : h.ObserverOnly) {r q : State} (hrq : erase r = erase q) (g : Group) :
-    erase (g0psH cfg h r g) = erase (g0ps cfg q g) := by
-  obtain ⟨_, _, hs, hps, _⟩ := erase_fields hrq
-  unfold g0psH g0ps
+theorem nc_g0ps_erase (cfg : Cfg) (h : Handler) (ho : h.ObserverOnly) {r q : State} (hrq : erase r = erase q) (g : Group) :
+    erase (nc_g0psH cfg h r g) = erase (nc_g0ps cfg q g) := by
+  obtain ⟨_, _, hs, hps, _⟩ := erase_fields_eq hrq
+  unfold nc_g0psH nc_g0ps
   simp only [hs, hps]
   split
   · rw [emitH_erase h ho]; cases r; cases q; simp only [erase, State.mk.injEq] at hrq ⊢; simp_all
   · cases r; cases q; simp only [erase, State.mk.injEq] at hrq ⊢; simp_all
 
-theorem g0af_erase (h : Handler) (ho : h.ObserverOnly) {e s2 : State} (h3 : erase e = erase s2) (g : Group) :
-    erase (g0afH h e g) = erase (g0af s2 g) := by
-  unfold g0afH g0af
+theorem nc_g0af_erase (h : Handler) (ho : h.ObserverOnly) {e s2 : State} (h3 : erase e = erase s2) (g : Group) :
+    erase (nc_g0afH h e g) = erase (nc_g0af s2 g) := by
+  unfold nc_g0afH nc_g0af
   split
   · exact addAfH_erase h ho (addAfH_erase h ho h3 _) _
   · exact h3
 
-theorem group0H_eq (cfg : Cfg) (h : Handler) (s : State) (g : Group) :
-    (group0H cfg h s g).1 = g0afH h (g0psH cfg h (if g.eb = 0 then (setFieldH h (setFieldH h s .ta (g.b / 16 % 2 : Nat)).1 .ms (g.b / 8 % 2 : Nat)).1 else s) g) g := by
-  unfold group0H g0afH g0psH
+theorem group0H_eq_g0tail (cfg : Cfg) (h : Handler) (s : State) (g : Group) :
+    (group0H cfg h s g).1 = nc_g0afH h (nc_g0psH cfg h (if g.eb = 0 then (setFieldH h (setFieldH h s .ta (g.b / 16 % 2 : Nat)).1 .ms (g.b / 8 % 2 : Nat)).1 else s) g) g := by
+  unfold group0H nc_g0afH nc_g0psH
   simp only []
   split <;> split <;> rfl
 
-theorem group0_eq (cfg : Cfg) (s : State) (g : Group) :
-    (group0 cfg s g).1 = g0af (g0ps cfg (if g.eb = 0 then (setField (setField s .ta (g.b / 16 % 2 : Nat)).1 .ms (g.b / 8 % 2 : Nat)).1 else s) g) g := by
-  unfold group0 g0af g0ps
+theorem group0_eq_g0tail (cfg : Cfg) (s : State) (g : Group) :
+    (group0 cfg s g).1 = nc_g0af (nc_g0ps cfg (if g.eb = 0 then (setField (setField s .ta (g.b / 16 % 2 : Nat)).1 .ms (g.b / 8 % 2 : Nat)).1 else s) g) g := by
+  unfold group0 nc_g0af nc_g0ps
   simp only []
   split <;> split <;> rfl
 
 theorem group0H_erase (cfg : Cfg) (h : Handler) (ho : h.ObserverOnly) {s t : State} (hst : erase s = erase t) (g : Group) :
     erase (group0H cfg h s g).1 = erase (group0 cfg t g).1 := by
-  rw [group0H_eq, group0_eq]
-  apply g0af_erase h ho
-  apply g0ps_erase cfg h ho
+  rw [group0H_eq_g0tail, group0_eq_g0tail]
+  apply nc_g0af_erase h ho
+  apply nc_g0ps_erase cfg h ho
   split
   · exact setFieldH_erase h ho (setFieldH_erase h ho hst _ _) _ _
   · exact hst
+
+theorem erase_setRt_congr {s t : State} (hst : erase s = erase t) (fl : Nat) (x : Text) :
+    erase (s.setRt fl x) = erase (t.setRt fl x) := by
+  unfold State.setRt
+  split <;> (cases s; cases t; simp only [erase, State.mk.injEq] at hst ⊢; simp_all)
+
+theorem erase_setLast_congr {s t : State} (hst : erase s = erase t) (v : Int) :
+    erase { s with lastRt := v } = erase { t with lastRt := v } := by
+  cases s; cases t; simp only [erase, State.mk.injEq] at hst ⊢; simp_all
+
+theorem erase_rt_congr {s t : State} (hst : erase s = erase t) (fl : Nat) : s.rt fl = t.rt fl := by
+  obtain ⟨_, _, _, _, h0, h1, _, _⟩ := erase_fields_eq hst
+  unfold State.rt; rw [h0, h1]
+
+def nc_g2clr (s : State) (g : Group) : Bool :=
+  (g.eb = 0 && (((g.b / 16 % 2 : Nat) : Int) != s.lastRt)) && s.lastRt != -1 && getAvailable (s.rt (g.b / 16 % 2))
+
+def nc_g2pre (s : State) (g : Group) : State :=
+  let flag := g.b / 16 % 2
+  let sw := g.eb = 0 && ((flag : Int) != s.lastRt)
+  let clr := sw && s.lastRt != -1 && getAvailable (s.rt flag)
+  let s1 := if clr then s.setRt flag (s.rt flag).cleared else s
+  if sw then { s1 with lastRt := flag } else s1
+
+def nc_g2restH (cfg : Cfg) (h : Handler) (clr : Bool) (s2 : State) (g : Group) : State × List Event :=
+  let flag := g.b / 16 % 2
+  let pos := g.b % 16
+  if g.eb != 0 && (flag : Int) != s2.lastRt && s2.lastRt != -1 then (s2, [])
+  else
+    let u1 := if !g.versionB
+      then parserUpdate cfg s2.set (s2.rt flag) .rt g.c g.eb g.ec (4 * pos)
+      else (s2.rt flag, false)
+    let pos2 := if !g.versionB then 4 * pos + 2 else 2 * pos
+    let u2 := parserUpdate cfg s2.set u1.1 .rt g.d g.eb g.ed pos2
+    let s3 := s2.setRt flag u2.1
+    if clr || u1.2 || u2.2 then emitH h s3 .rt (.rt flag) else (s3, [])
+
+theorem group2H_eq_g2rest (cfg : Cfg) (h : Handler) (s : State) (g : Group) :
+    group2H cfg h s g = nc_g2restH cfg h (nc_g2clr s g) (nc_g2pre s g) g := rfl
+
+theorem group2_eq_g2rest (cfg : Cfg) (s : State) (g : Group) :
+    (group2 cfg s g).1 = (nc_g2restH cfg Handler.noop (nc_g2clr s g) (nc_g2pre s g) g).1 := by
+  rw [← group2H_eq_g2rest, group2H_noop]
+
+theorem nc_g2clr_congr {s t : State} (hst : erase s = erase t) (g : Group) : nc_g2clr s g = nc_g2clr t g := by
+  obtain ⟨_, _, _, _, _, _, _, hl⟩ := erase_fields_eq hst
+  unfold nc_g2clr; rw [hl, erase_rt_congr hst]
+
+theorem nc_g2pre_erase {s t : State} (hst : erase s = erase t) (g : Group) : erase (nc_g2pre s g) = erase (nc_g2pre t g) := by
+  obtain ⟨_, _, _, _, _, _, _, hl⟩ := erase_fields_eq hst
+  unfold nc_g2pre
+  simp only [hl, erase_rt_congr hst]
+  have h1 : erase (if (decide (g.eb = 0) && ((g.b / 16 % 2 : Nat) : Int) != t.lastRt && t.lastRt != -1 &&
+        getAvailable (t.rt (g.b / 16 % 2))) = true then s.setRt (g.b / 16 % 2) (t.rt (g.b / 16 % 2)).cleared else s) =
+      erase (if (decide (g.eb = 0) && ((g.b / 16 % 2 : Nat) : Int) != t.lastRt && t.lastRt != -1 &&
+        getAvailable (t.rt (g.b / 16 % 2))) = true then t.setRt (g.b / 16 % 2) (t.rt (g.b / 16 % 2)).cleared else t) := by
+    split
+    · exact erase_setRt_congr hst _ _
+    · exact hst
+  split
+  · exact erase_setLast_congr h1 _
+  · exact h1
+
+theorem nc_tailEmit_erase (h h' : Handler) (ho : h.ObserverOnly) (ho' : h'.ObserverOnly) (c : Bool) {a b : State}
+    (hab : erase a = erase b) (cb : Cb) (k : EvKind) :
+    erase (if c = true then emitH h a cb k else (a, [])).1 = erase (if c = true then emitH h' b cb k else (b, [])).1 := by
+  cases c
+  · exact hab
+  · simp only [if_true]; rw [emitH_erase h ho, emitH_erase h' ho']; exact hab
+
+theorem nc_g2rest_erase (cfg : Cfg) (h h' : Handler) (ho : h.ObserverOnly) (ho' : h'.ObserverOnly) (clr : Bool) {s2 t2 : State}
+    (hst : erase s2 = erase t2) (g : Group) :
+    erase (nc_g2restH cfg h clr s2 g).1 = erase (nc_g2restH cfg h' clr t2 g).1 := by
+  obtain ⟨_, _, hs, _, _, _, _, hl⟩ := erase_fields_eq hst
+  unfold nc_g2restH
+  simp only [hl, hs, erase_rt_congr hst]
+  split
+  · exact hst
+  · exact nc_tailEmit_erase h h' ho ho' _ (erase_setRt_congr hst _ _) _ _
+
+theorem nc_noop_observerOnly : Handler.noop.ObserverOnly := fun _ _ => rfl
+
+theorem group2H_erase (cfg : Cfg) (h : Handler) (ho : h.ObserverOnly) {s t : State} (hst : erase s = erase t) (g : Group) :
+    erase (group2H cfg h s g).1 = erase (group2 cfg t g).1 := by
+  rw [group2H_eq_g2rest, group2_eq_g2rest, nc_g2clr_congr hst]
+  exact nc_g2rest_erase cfg h Handler.noop ho nc_noop_observerOnly _ (nc_g2pre_erase hst g) g
+
+
+theorem dispatchH_erase (cfg : Cfg) (h : Handler) (ho : h.ObserverOnly) {s t : State} (hst : erase s = erase t) (g : Group) :
+    erase (dispatchH cfg h s g).1 = erase (dispatch cfg t g).1 := by
+  unfold dispatchH dispatch
+  split
+  · exact group0H_erase cfg h ho hst g
+  · split
+    · exact group1H_erase cfg h ho hst g
+    · split
+      · exact group2H_erase cfg h ho hst g
+      · split
+        · rw [group4H_erase h ho, group4_state_same]; exact hst
+        · split
+          · exact group10H_erase cfg h ho hst g
+          · exact hst
+
+/-- **Nested-call form of C15.** A callback that, from inside the call, changes nothing but the registration table and the
+user data (whatever it registers, removes or sets) does not influence what is decoded: the state after the call, up to the
+observer table, is the one of the plain model. -/
+theorem processH_erase (cfg : Cfg) (h : Handler) (ho : h.ObserverOnly) (s : State) (g : Group) :
+    erase (processH cfg h s g).1 = erase (process cfg s g).1 := by
+  unfold processH process
+  exact dispatchH_erase cfg h ho (groupCommonH_erase h ho rfl g) g
+
+theorem stepH_erase (cfg : Cfg) (h : Handler) (ho : h.ObserverOnly) (s : State) (op : Op) :
+    erase (stepH cfg h s op).1 = erase (step cfg s op).1 := by
+  cases op <;> try rfl
+  · exact processH_erase cfg h ho s _
+  · rename_i b; cases b
+    · rfl
+    · simp only [stepH, step]
+      cases utilsConvert _
+      · rfl
+      · exact processH_erase cfg h ho s _
+
+
+/-- non-vacuity: the harness's modes "callback j registers callback k" and "callback j unregisters k / changes the user data"
+are observer-only handlers -/
+theorem handlerOfMode_observerOnly (cfg : Cfg) (m : Nat) (h1 : 1000 ≤ m) (h2 : m < 5000) (h : Handler)
+    (hm : handlerOfMode cfg m = some h) : h.ObserverOnly := by
+  unfold handlerOfMode at hm
+  have e0 : ¬ m = 0 := by omega
+  have e7 : ¬ 7000 ≤ m := by omega
+  have e5 : ¬ 5000 ≤ m := by omega
+  simp only [e0, e7, e5, if_false] at hm
+  split at hm
+  · injection hm with hm; subst hm
+    intro e s
+    show erase (if _ then _ else _) = _
+    split <;> rfl
+  · first | rw [if_pos h1] at hm | skip
+    injection hm with hm; subst hm
+    intro e s
+    show erase (if _ then _ else _) = _
+    split
+    · split <;> split <;> rfl
+    · rfl
 
 end RDS
